@@ -68,6 +68,9 @@ func (g *gen) sibling(prog string) (string, bool) {
 	f := strings.Split(steps[k], ",")
 	var cand []int
 	for i := 2; i < len(f); i++ {
+		if i == 2 && (f[0] == "apply" || f[0] == "applypara") {
+			continue // the callback's number, not an argument of the library
+		}
 		if reInt.MatchString(f[i]) || strings.Count(f[i], ":") == 4 {
 			cand = append(cand, i)
 		}
